@@ -205,6 +205,16 @@ pub fn run_cnf_compile(case: &CnfCompileCase, st: &mut Stats) -> CaseResult {
         );
     }
     st.flag("cnf.no_clauses", case.cnf.clauses.is_empty());
+    st.flag(
+        match case.cnf.clauses.len() {
+            0..=15 => "cnf.clauses.le15",
+            16..=63 => "cnf.clauses.16-63",
+            64..=255 => "cnf.clauses.64-255",
+            256..=511 => "cnf.clauses.256-511",
+            _ => "cnf.clauses.ge512",
+        },
+        true,
+    );
     st.flag("cnf.empty_clause", case.cnf.has_empty_clause());
     st.flag("cnf.unit_clause", case.cnf.clauses.iter().any(|c| c.len() == 1));
     st.flag("cnf.tautological_clause", case.cnf.clauses.iter().any(|c| is_tautology(c)));
@@ -224,7 +234,10 @@ impl SubCheckT for CnfCompile {
     }
     fn strategy(_tier: Tier) -> BoxedStrategy<CnfCompileCase> {
         (
-            cnf_strategy(),
+            prop_oneof![
+                24 => cnf_strategy(),
+                1 => crate::cnfgen::many_clauses_strategy().prop_map(|clauses| CnfCase { clauses }),
+            ],
             cfg_strategy(7),
             proptest::collection::vec(proptest::option::weighted(0.3, any::<bool>()), 8),
             vtree_case_strategy(7, false),
